@@ -88,5 +88,56 @@ def main():
     sys.exit(1 if fails else 0)
 
 
+def main_edited():
+    """the network is edited after the controller was created (tap changer moved to the other side / sign of the step reversed): on return the
+    voltage is in the band, or the tap is at the limit beyond which the voltage would move further towards the band"""
+    fails = []
+    for edit in ("tap_side hv -> lv", "tap_step_percent -> negative", "no edit"):
+        for kind in ("discrete", "continuous"):
+            net = _net()
+            if kind == "continuous":
+                net.trafo["tap_pos"] = net.trafo.tap_pos.astype(float)
+                c = ct.ContinuousTapControl(net, 0, 1.0, tol=1e-3)
+                lo, hi = 1.0 - 1e-3, 1.0 + 1e-3
+            else:
+                c = ct.DiscreteTapControl(net, 0, 0.99, 1.02)
+                lo, hi = 0.99, 1.02
+            if edit.startswith("tap_side"):
+                net.trafo.at[0, "tap_side"] = "lv"
+            elif edit.startswith("tap_step"):
+                net.trafo.at[0, "tap_step_percent"] = -1.5
+            net.load.at[0, "p_mw"] = 30.
+            try:
+                ct.run_control(net)
+            except Exception as e:
+                if "NotConverged" in type(e).__name__ or "not converge" in str(e).lower():
+                    continue
+                fails.append(f"{edit}, {kind}: {type(e).__name__}: {e}")
+                continue
+            bus = net.trafo.lv_bus.at[0]
+            vm = net.res_bus.vm_pu.at[bus]
+            if lo <= vm <= hi:
+                continue
+            tp = net.trafo.tap_pos.at[0]
+            # outside the band: is there a neighbouring tap position inside the limits that brings the voltage closer to the band?
+            dist = lambda v: max(lo - v, v - hi, 0.)
+            for step in (-1, 1):
+                if not (net.trafo.tap_min.at[0] <= tp + step <= net.trafo.tap_max.at[0]):
+                    continue
+                trial = copy.deepcopy(net)
+                trial.controller = trial.controller.iloc[0:0]
+                trial.trafo.at[0, "tap_pos"] = tp + step
+                pp.runpp(trial)
+                if dist(trial.res_bus.vm_pu.at[bus]) < dist(vm) - 1e-6:
+                    fails.append(f"{edit}, {kind} tap control: returns as converged with vm = {vm:.4f} outside [{lo}, {hi}] at tap {tp}, although tap "
+                                 f"{tp + step} (inside the limits) gives vm = {trial.res_bus.vm_pu.at[bus]:.4f}")
+                    break
+    for f in fails:
+        print("REPRODUCED:", f)
+    if not fails:
+        print("not reproduced: tap controllers follow edits of the network made after their creation")
+    sys.exit(1 if fails else 0)
+
+
 if __name__ == "__main__":
     main()
